@@ -29,7 +29,7 @@ func GenericOracle(sc *Scenario, w *World, x *Exec) []Violation {
 func panicSite(p string) string {
 	for _, l := range strings.Split(p, "\n") {
 		l = strings.TrimSpace(l)
-		if strings.HasPrefix(l, "/repo/") {
+		if strings.HasPrefix(l, "/repo/") && !strings.HasPrefix(l, "/repo/verifrt/") {
 			l = strings.TrimPrefix(l, "/repo/")
 			if i := strings.IndexByte(l, ' '); i > 0 {
 				l = l[:i]
